@@ -114,6 +114,9 @@ _S_MAXDEV = st.sampled_from([DEFAULT_MAX_DEV_DEG, 55.0, 40.0])
 _S_MASS = mass_params()
 
 
+_S_REUSE = st.sampled_from([False, False, False, True])
+
+
 @st.composite
 def sp_specs(draw, routes=ROUTES, spin=True, base=True, masses=False):
     """Serialisable geometry dict inside C09's quantifier ranges.
@@ -164,6 +167,8 @@ def sp_specs(draw, routes=ROUTES, spin=True, base=True, masses=False):
         "spin": draw(_S_SPIN) if spin else None,
         "max_dev": draw(_S_MAXDEV),
         "masses": draw(_S_MASS) if masses else None,
+        # the caller goes on using the base transform object it handed to the constructor (and changes it)
+        "reuse_base": draw(_S_REUSE),
     }
     return spec
 
@@ -351,6 +356,14 @@ def make_tm(T, form="mat"):
         return tm(np.array(T, copy=True))
     if form == "taa":
         return tm([float(v) for v in np.concatenate([T[:3, 3], O.log3(T[:3, :3])])])
+    if form == "taa_wound":
+        # the same pose written with a rotation vector one revolution longer (a base that has been turned round
+        # once more): |w| -> |w| + 2 pi about the same axis
+        w = O.log3(T[:3, :3])
+        a = float(np.linalg.norm(w))
+        if a > 1e-3:
+            w = w * (1.0 + 2 * math.pi / a)
+        return tm([float(v) for v in np.concatenate([T[:3, 3], w])])
     raise ValueError(form)
 
 
@@ -381,6 +394,7 @@ def construct(spec):
     use build_sp which does)."""
     tm, spm = _lib()
     base = tm([float(v) for v in np.asarray(spec["base"], dtype=float).reshape(6)])
+    construct.last_base = base
     m = spec.get("masses")
     route = spec["route"]
     if route == "newSP":
@@ -419,6 +433,18 @@ def build_sp(spec):
     if spec["route"] != "loadSP":            # loadSP takes it from the JSON
         lib_call(sp.setMaxAngleDev, spec.get("max_dev", DEFAULT_MAX_DEV_DEG))
     model = SPModel(spec).set_neutral(sp)
+    if spec.get("reuse_base"):
+        from .core import Violation
+        # The caller's base transform is the caller's object: it is now used for something else (moved in place).
+        # The platform stands where it was built.
+        b = construct.last_base
+        before = read_poses(sp)
+        for k, dv in enumerate((2.5, -1.0, 0.75, 0.2, -0.1, 0.3)):
+            b[k] = float(b[k]) + dv
+        after = read_poses(sp)
+        if not (np.array_equal(before[0], after[0]) and np.array_equal(before[1], after[1])):
+            raise Violation("the platform's plate poses changed (bottom by %.3g) when the caller moved, in place, the base "
+                            "transform object it had handed to the constructor" % float(np.abs(before[0] - after[0]).max()))
     if spec.get("spin") is not None:
         lib_call(sp.spinCustom, float(spec["spin"]))
         model.refresh(sp)                    # plate-fixed coordinates are re-read; h and T_rel0 stay the construction ones
